@@ -253,6 +253,33 @@ def mixed_streams(case):
           _cmp_result(k, res[k], fold(singles[k], zeros[k], seq), 'evaluate_model over plain and padded batches in order %r' % (order,),
                       dict(case, order=list(order)))
         evals += 1
+  elif case['kind'] == 'reuse':
+    import jax
+    from fedjax.core import for_each_client as fec
+    seq = [0, 1, 2, 3, 4, 1]
+    batches = [make_batch(pool, poison, seq[:3], 1, 'poison'), make_batch(pool, poison, seq[3:], 2, 'poison')]
+    keys_before = [sorted(b) for b in batches]
+    snaps = [{k: np.array(v, copy=True) for k, v in b.items()} for b in batches]
+    ev = _evaluator(fam, model)
+    for mode in ('jit', 'disable_jit', 'jit', 'debug_backend', 'jit'):
+      if mode == 'disable_jit':
+        with jax.disable_jit():
+          res = fedjax.evaluate_model(model, {}, batches)
+      elif mode == 'debug_backend':
+        with fec.for_each_client_backend('debug'):
+          dbg = fedjax.ModelEvaluator(model)
+          res = dict(dbg.evaluate_global_params({'unused': np.zeros(1, np.float32)}, [(b'c', batches)]))[b'c']
+      else:
+        res = fedjax.evaluate_model(model, {}, batches)
+      for k in mets:
+        _cmp_result(k, res[k], fold(singles[k], zeros[k], seq), 'evaluation number under %s of the SAME batch objects' % mode,
+                    dict(case, mode=mode))
+      require([sorted(b) for b in batches] == keys_before, 'an evaluation (%s) changed the feature set of the caller\'s batch dicts'
+              % mode, keys_before, [sorted(b) for b in batches], case=dict(case, mode=mode))
+      for b, sn in zip(batches, snaps):
+        for k in sn:
+          require(np.array_equal(np.asarray(b[k]), sn[k]), 'an evaluation (%s) changed the caller\'s batch arrays' % mode, case=dict(case, mode=mode))
+      evals += 1
   else:
     for rows in case['rows']:
       seq = [i % len(pool) for i in range(rows)]
@@ -523,7 +550,7 @@ def plan(ctx):
       for seq in itertools.product((0, 1, 3), repeat=4):
         pl.append({'family': fam, 'seq': list(seq), 'pads': [(0, 'zeros'), (2, 'poison')], 'evaluator': seq[0] == 1})
   ctx.pmap('partition_level', pl, chunk=8)
-  ctx.pmap('mixed_streams', [{'family': f, 'kind': 'mixed'} for f in ('cls', 'seq')] +
+  ctx.pmap('mixed_streams', [{'family': f, 'kind': k} for f in ('cls', 'seq') for k in ('mixed', 'reuse')] +
            [{'family': f, 'kind': 'big', 'rows': r} for f in ('cls', 'seq') for r in ([1023, 1024, 1025], [2048], [3072, 4095]) if th or r != [3072, 4095]],
            chunk=1)
   ctx.pmap('monoid', [{'family': f, 'metric': k} for f in ('cls', 'seq') for k in FAMILIES[f][0]()], chunk=2)
